@@ -643,6 +643,11 @@ def _make_ord(cls: t.Type[PaneBase], fields: t.Sequence[Field]):
 def _maybe_make_hash(cls: t.Type[PaneBase], fields: t.Sequence[Field]):
     opts = cls.__pane_info__.opts
 
+    if '__origin__' in cls.__dict__:
+        # a parameterization of a generic class (Cls[int]): instances compare equal
+        # across parameterizations, so it keeps the __hash__ of its origin
+        return
+
     class_hash = cls.__dict__.get('__hash__', _MISSING)
     has_explicit_hash = not (class_hash is _MISSING or
                              (class_hash is None and '__eq__' in cls.__dict__))
